@@ -30,6 +30,11 @@ CLAIMED = {
     'C06': ('5-C06', 'The real StreamFace.run loop and both receive callbacks are executed on fully symbolic byte strings and on '
             'every single-byte / truncation mutation of valid packets, in four application states; framing is compared with a '
             'reference splitter for every chunking. The solver decides, path by path, that no exception class escapes. Bounded.'),
+    'C04': ('5-C04', 'Attach/detach histories (solver-pruned exhaustive choice over prefixes, representations and operations) '
+            'are compared with longest-prefix set semantics; the reply-deadline clause is decided for all lifetimes, delays and '
+            'clock offsets. Trie keys are hashed, so names are concrete per path (stated). Bounded.'),
+    'C10': ('5-C10', 'Envelope codec, wrapped-vs-bare equivalence on two fresh applications, Nack reason delivery for all 2^64 '
+            'reasons, fragment rejection and token/reply pairing for symbolic tokens are decided per path. Bounded.'),
 }
 NOT_YET = 'check not built yet in this revision of /verif (planned in DESIGN.md section 5)'
 NA = {
